@@ -176,7 +176,7 @@ def _exc(e):
 
 
 def _devkey(clause, devs):
-    return ["C16:%s:Dev_%s" % (clause, x) for x in devs]
+    return ["C16:Dev_%s" % x for x in devs]
 
 
 def replay_case(case):
@@ -235,7 +235,7 @@ def replay_case(case):
             for k in _devkey("unpack", hit):
                 fails.append((k, what + " (the deviation reads beyond the buffer or meets a raising one)"))
         elif case["unpTrig"]:
-            fails.append(("C16:unpack:Dev_" + case["unpTrig"][0], what))
+            fails.append(("C16:Dev_" + case["unpTrig"][0], what))
         else:
             fails.append(("C16:unpack:raises:" + type(e).__name__, what))
     if obs is not None:
@@ -253,7 +253,7 @@ def replay_case(case):
                 for k in _devkey("unpack", hit):
                     fails.append((k, what))
             elif "VarEmptyNoSize" in case["unpTrig"]:
-                fails.append(("C16:unpack:Dev_VarEmptyNoSize", what))
+                fails.append(("C16:Dev_VarEmptyNoSize", what))
             else:
                 fails.append(("C16:unpack:values", what))
     # --- pack (only meaningful on correctly unpacked values) ----------------------------------
@@ -272,7 +272,7 @@ def replay_case(case):
                     break
             what = "ps=%d: pack raised %s" % (ps, _exc(e))
             if hit:
-                fails.append(("C16:pack:Dev_" + hit, what))
+                fails.append(("C16:Dev_" + hit, what))
             else:
                 fails.append(("C16:pack:raises:" + en, what))
         if got is not None:
